@@ -205,7 +205,7 @@ PROPS = {
                                                                    rounds("malformed", 800, 8000, ["hook-customize"])]),
     "C16": sync_prop(C16T, ["update-parent", "updateStatus-parent"],
                      "non-trivial = the decorated object was written (decorator traces); composite traces are not judged", ["parent", "status", "hook"]),
-    "C12": sync_prop(C12T, ["failed-create", "failed-update", "failed-delete", "failed-updateStatus", "outcome-error"],
+    "C12": sync_prop(C12T + [("Mc.Props.C12Inventory", "Mc.C12.C12_tolerated_inventory")], ["failed-create", "failed-update", "failed-delete", "failed-updateStatus", "outcome-error"],
                      "non-trivial = some request failed or the sync reported an error" + RULE_ROUNDS, ["outcome", "children", "status", "claim", "revisions", "finalizer", "parent"],
                      extra_streams=[rounds("faults", 96, 960, ["rounds-faults", "failed-create", "failed-update", "failed-delete", "failed-updateStatus", "outcome-error"]),
                                     rounds("malformed", 800, 8000, ["outcome-error", "hook-sync", "hook-finalize"]),
